@@ -3,6 +3,8 @@ import PoaVerif.Lemmas.EndBlock
 import PoaVerif.Lemmas.RunRefine
 import PoaVerif.Lemmas.GenesisPre
 import PoaVerif.Lemmas.Quiet
+import PoaVerif.Lemmas.Quiet2.Run
+import PoaVerif.Witness.Q2
 import PoaVerif.Witness.D1
 import PoaVerif.Witness.D1
 import PoaVerif.Witness.D6
@@ -135,5 +137,51 @@ example : preAll genEnv Witness.D1.s3 Witness.D1.c3 [Witness.D1.b4] = false := b
 /-- the genesis set returned by InitChain: for the witness genesis it is the chain's own set (`decide`d);
     `c02_partial_init` states it for every well-formed genesis of distinct single-entry validators below -/
 example : Witness.D1.c0 = Witness.D1.s0.chainSet := by decide
+
+/-! ### the envelope theorem, removals included (`Lemmas/Quiet2`)
+
+  The invariant of the power-adjustment histories is widened to three classes of records: `Active` (bonded, un-jailed,
+  positive power), `Gone` (removed by RemoveValidator earlier in this block: bonded, no tokens, power-table entry 0, no
+  index entry) and `Unb` (unbonding after a removal: one index entry at power 0, queued for maturity).  `M2`/`G2` are
+  preserved by SetPower (existing validator without D1/D3, admission), by RemoveValidator of a live validator not
+  re-weighted in this block whose index entry sits at its current power (no D2) — by the admin or by the validator
+  itself —, by CreateValidator, RemovePending, UpdateStakingParams; the EndBlocker starts the unbonding of every `Gone`
+  record and deletes the matured `Unb` ones; no zero-power entry may shadow a live validator's (no D6, `noShadow`). -/
+
+/-- **C02 and C04 for every quiet history, removals included** (`QuietHistory2`, decidable form `quietRun2B` evaluated
+    by the driver as `QUIET2` lines): from every well-formed genesis, any number of blocks in which x/slashing's
+    BeginBlocker punishes nobody, no evidence arrives, and every transaction either leaves the state unchanged or is a
+    CreateValidator, a RemovePending, a valid UpdateStakingParams, the admin's SetPower (admitting a pending applicant,
+    or re-weighting a live validator without D1/D3), or a RemoveValidator — by the admin or by the operator itself —
+    of a live validator not re-weighted in this block whose index entry sits at its current power (no D2); with the
+    index within `MaxValidators` (no D7), no shadowing zero-power entry (no D6) and the powers within CometBFT's maximum:
+    the run reaches its end, no block halts, CometBFT refuses no update list, and after InitChain and after every block
+    CometBFT's set equals the chain's own — including the blocks in which removed validators unbond, and those in which
+    their records mature and are deleted. -/
+theorem c02_removals (g : Genesis) (hw : g.wf = true) (bs : List Block) (hq : QuietHistory2 g bs) :
+    ∃ first steps, run genEnv g bs = some (first, steps, RunEnd.done) ∧ steps.length = bs.length ∧
+      Agree first.comet first.app ∧ ∀ st ∈ steps, Agree st.comet st.app := by
+  obtain ⟨first, steps, h1, h2, h3, _, h5⟩ := quiet_history2 g hw bs hq
+  exact ⟨first, steps, h1, h2, h3, fun st hst => (h5 st hst).1⟩
+
+/-- the decidable form the driver evaluates implies the hypothesis -/
+theorem c02_removals_decidable (g : Genesis) (bs : List Block)
+    (h : ∀ u s c, App.initChain g = .ok (u, s) → Comet.applyChangeSet [] u = .ok c → quietRun2B bs s c = true) :
+    QuietHistory2 g bs :=
+  fun u s c hi hc => quietRun2_of_B bs s c (h u s c hi hc)
+
+/-- non-vacuity (kernel-checked, block by block): the witness history `Q2` — the admin removes validator 2 and
+    re-weights validator 0 in one block; an idle block; 21 days later validator 2's record matures and is deleted in
+    the block in which validator 3 removes itself; an idle block — is quiet in the wider sense; its second and fourth
+    blocks are not quiet in the sense of the power-adjustment class -/
+example : Witness.Q2.g.wf = true := by decide
+example : quietBlock2B Witness.Q2.s0 Witness.Q2.c0 Witness.Q2.b1 = true := by decide
+example : quietBlock2B Witness.Q2.s1 Witness.Q2.c1 Witness.Q2.b2 = true := by decide
+example : quietBlock2B Witness.Q2.s2 Witness.Q2.c2 Witness.Q2.b3 = true := by decide
+example : quietBlock2B Witness.Q2.s3 Witness.Q2.c3 Witness.Q2.b4 = true := by decide
+example : quietBlock2B Witness.Q2.s4 Witness.Q2.c4 Witness.Q2.b5 = true := by decide
+example : quietBlockB Witness.Q2.s1 Witness.Q2.c1 Witness.Q2.b2 = false := by decide
+example : Witness.Q2.c2 = [(0, 12), (1, 10), (3, 10)] ∧ Witness.Q2.c4 = [(0, 12), (1, 10)] ∧
+    Witness.Q2.s3.getVal 2 ≠ none ∧ Witness.Q2.s4.getVal 2 = none := by decide
 
 end PoaVerif.Props.C02
